@@ -5,6 +5,8 @@
 package eventrecorder
 
 import (
+	"syscall"
+	"os/signal"
 	"bufio"
 	"bytes"
 	"encoding/gob"
@@ -101,6 +103,7 @@ func TestVerif(t *testing.T) {
 		for _, a := range c.Steps {
 			op, _ := a["op"].(string)
 			panicked := false
+			saved := true
 			func() {
 				defer func() {
 					if p := recover(); p != nil {
@@ -143,16 +146,44 @@ func TestVerif(t *testing.T) {
 					if err := saveEvents(fn, last.Events); err != nil {
 						panicked = true
 					}
+				case "save_crash":
+					// the save is cut short (the process is killed / the disk fills up after a few more bytes): a file size
+					// limit just above the current file makes the write fail part-way
+					var last *Events
+					sr.getEventsList(&last)
+					limit := uint64(256)
+					if fi, err := os.Stat(fn); err == nil {
+						limit = uint64(fi.Size()) + 48
+					}
+					signal.Ignore(syscall.SIGXFSZ)
+					var old syscall.Rlimit
+					syscall.Getrlimit(syscall.RLIMIT_FSIZE, &old)
+					syscall.Setrlimit(syscall.RLIMIT_FSIZE, &syscall.Rlimit{Cur: limit, Max: old.Max})
+					before, _ := os.ReadFile(fn)
+					saveEvents(fn, last.Events) // (its return value says nothing: the failing write happens in a deferred flush)
+					syscall.Setrlimit(syscall.RLIMIT_FSIZE, &old)
+					after, _ := os.ReadFile(fn)
+					// the save took place iff the file now holds a complete, decodable history different from before
+					saved = false
+					if !bytes.Equal(before, after) {
+						if _, err := loadEvents(fn); err == nil {
+							saved = true
+						}
+					}
 				case "load":
 					em, err := loadEvents(fn)
 					if err == nil || os.IsNotExist(err) {
 						sr = &EventRecorder{filename: fn, logger: nulllogger.New(), eventsMap: em}
+					} else {
+						// the daemon cannot start from this file: whatever it held is gone
+						sr = &EventRecorder{filename: fn, logger: nulllogger.New(), eventsMap: map[string]*eventsListType{}}
+						panicked = true
 					}
 				case "expire":
 					sr.expireOldEvents()
 				}
 			}()
-			enc.Encode(map[string]interface{}{"i": n, "trace": trace, "ev": op, "args": a, "mem": vProject(sr, users), "panic": panicked})
+			enc.Encode(map[string]interface{}{"i": n, "trace": trace, "ev": op, "args": a, "mem": vProject(sr, users), "panic": panicked, "saved": saved})
 			n++
 		}
 		os.RemoveAll(dir)
